@@ -121,7 +121,7 @@ def rule_fsm(chk):
     pc = chk.anchor("C11.anchor/preprocess_command", f.fn("preprocess_command", PP), "preprocess_command")
     if pc:
         pushes = [c for c in F.exprs(pc["thir"], "Call") if (c.get("fn") or "").endswith("ConditionChain::push")]
-        chk.floor("C11.floor/pushes", len(pushes), 4, "condition_chain.push sites in preprocess_command", where(pc))
+        chk.floor("C11.floor/pushes", len(pushes), 2, "condition_chain.push sites in preprocess_command", where(pc))
         n_cond = 0
         lets = F.let_table(pc["thir"])
         SIMPLE = {"If", "Unary", "Binary", "Logical", "Var", "Block", "Lit", "Borrow", "Deref"}
@@ -183,7 +183,7 @@ def rule_fsm(chk):
                        "#ifdef/#ifndef activity table is %s with negation keyed on %s" % (table, lits), where(pc, c))
             else:
                 chk.ob("C11.fsm/push-polarity", False, "the pushed state depends on %d boolean inputs: not a readable condition push" % len(ids), where(pc, c))
-        chk.floor("C11.floor/conditional-pushes", n_cond, 2, "conditional pushes (#if, #ifdef/#ifndef)", where(pc))
+        chk.floor("C11.floor/conditional-pushes", n_cond, 1, "conditional pushes (#if, #ifdef/#ifndef)", where(pc))
         if not ok_neg:
             chk.ob("C11.fsm/ifndef-negation", False, "anchor-missing or wrong: the #ifdef/#ifndef push `Enabled iff exists XOR (command == \"ifndef\")`", where(pc))
     # unfinished chain at end of the entry file
